@@ -177,30 +177,48 @@ func c10Text(c *Ctx) {
 		panic(err)
 	}
 	defer os.RemoveAll(dir)
+	// a model with two policy types and two role definitions of different arities: what is saved
+	// must come back under the SAME type
 	const mtext = `[request_definition]
 r = sub, obj, act
 [policy_definition]
 p = sub, obj, act
+p2 = sub, act
 [role_definition]
 g = _, _
+g2 = _, _, _
 [policy_effect]
 e = some(where (p.eft == allow))
 [matchers]
 m = g(r.sub, p.sub) && r.obj == p.obj && r.act == p.act
 `
 	safe := []string{"alice", "bob", "data1", "data2", "read", "a b", "x-y_z", "ü", "1", "-"}
+	// blanks at the END of a field survive the round trip in every column but the last (the
+	// adapters trim the whole line; leading blanks and blanks ending the line are F15 territory)
+	inner := append(append([]string(nil), safe...), "alice ", "x  ", "a b ")
 	n := 300
 	if c.Thorough() {
 		n = 5000
 	}
 	for i := 0; i < n; i++ {
 		var lines []string
-		k := 1 + c.Rng.Intn(5)
+		k := 1 + c.Rng.Intn(6)
+		pk := func(last bool) string {
+			if last {
+				return safe[c.Rng.Intn(len(safe))]
+			}
+			return inner[c.Rng.Intn(len(inner))]
+		}
 		for j := 0; j < k; j++ {
-			if c.Rng.Intn(4) == 0 {
-				lines = append(lines, fmt.Sprintf("g, %s, %s", safe[c.Rng.Intn(len(safe))], safe[c.Rng.Intn(len(safe))]))
-			} else {
-				lines = append(lines, fmt.Sprintf("p, %s, %s, %s", safe[c.Rng.Intn(len(safe))], safe[c.Rng.Intn(len(safe))], safe[c.Rng.Intn(len(safe))]))
+			switch c.Rng.Intn(6) {
+			case 0:
+				lines = append(lines, fmt.Sprintf("g, %s, %s", pk(false), pk(true)))
+			case 1:
+				lines = append(lines, fmt.Sprintf("g2, %s, %s, %s", pk(false), pk(false), pk(true)))
+			case 2:
+				lines = append(lines, fmt.Sprintf("p2, %s, %s", pk(false), pk(true)))
+			default:
+				lines = append(lines, fmt.Sprintf("p, %s, %s, %s", pk(false), pk(false), pk(true)))
 			}
 		}
 		text := strings.Join(lines, "\n") + "\n"
@@ -214,9 +232,29 @@ m = g(r.sub, p.sub) && r.obj == p.obj && r.act == p.act
 			c.Direct(id, "a policy of safe fields does not load through the file adapter", text)
 			continue
 		}
-		p1, _ := e1.GetPolicy()
-		g1, _ := e1.GetGroupingPolicy()
-		before := rulesKey(p1) + "#" + rulesKey(g1)
+		allKey := func(e *casbin.Enforcer) string {
+			a, _ := e.GetNamedPolicy("p")
+			b, _ := e.GetNamedPolicy("p2")
+			x, _ := e.GetNamedGroupingPolicy("g")
+			y, _ := e.GetNamedGroupingPolicy("g2")
+			return rulesKey(a) + "#" + rulesKey(b) + "#" + rulesKey(x) + "#" + rulesKey(y)
+		}
+		before := allKey(e1)
+		// what the text says, read independently of casbin (no quotes, no commas inside fields)
+		var want [4][][]string
+		for _, ln := range lines {
+			f := strings.Split(ln, ",")
+			for q := range f {
+				f[q] = strings.TrimLeft(f[q], " ")
+			}
+			idx := map[string]int{"p": 0, "p2": 1, "g": 2, "g2": 3}[f[0]]
+			if !containsRule(want[idx], f[1:]) {
+				want[idx] = append(want[idx], f[1:])
+			}
+		}
+		if ref := rulesKey(want[0]) + "#" + rulesKey(want[1]) + "#" + rulesKey(want[2]) + "#" + rulesKey(want[3]); ref != before {
+			c.Direct(id, "the file adapter loaded other rules than the text states", fmt.Sprintf("text=%q loaded=%s expected=%s", text, before, ref))
+		}
 		if err := e1.SavePolicy(); err != nil {
 			c.Direct(id, "SavePolicy failed on the file adapter", text)
 			continue
@@ -225,9 +263,7 @@ m = g(r.sub, p.sub) && r.obj == p.obj && r.act == p.act
 			c.Direct(id, "LoadPolicy after SavePolicy failed on the file adapter", text)
 			continue
 		}
-		p2, _ := e1.GetPolicy()
-		g2, _ := e1.GetGroupingPolicy()
-		if after := rulesKey(p2) + "#" + rulesKey(g2); after != before {
+		if after := allKey(e1); after != before {
 			c.Direct(id, "SavePolicy+LoadPolicy through the file adapter changed the rules", fmt.Sprintf("text=%q before=%s after=%s", text, before, after))
 		}
 		// string adapter: load only (its SavePolicy keeps the text in memory)
@@ -235,16 +271,12 @@ m = g(r.sub, p.sub) && r.obj == p.obj && r.act == p.act
 		sa := stringadapter.NewAdapter(text)
 		e2, err := casbin.NewEnforcer(m2, sa)
 		if err == nil {
-			p3, _ := e2.GetPolicy()
-			g3, _ := e2.GetGroupingPolicy()
-			if k3 := rulesKey(p3) + "#" + rulesKey(g3); k3 != before {
+			if k3 := allKey(e2); k3 != before {
 				c.Direct(id, "string adapter and file adapter load different rules from the same text", text)
 			}
 			if err := e2.SavePolicy(); err == nil {
 				if err := e2.LoadPolicy(); err == nil {
-					p4, _ := e2.GetPolicy()
-					g4, _ := e2.GetGroupingPolicy()
-					if k4 := rulesKey(p4) + "#" + rulesKey(g4); k4 != before {
+					if k4 := allKey(e2); k4 != before {
 						c.Direct(id, "SavePolicy+LoadPolicy through the string adapter changed the rules", text)
 					}
 				}
